@@ -16,11 +16,13 @@ for _q, _blk in (('sfc_models.sector.Sector.GetVariables', 'self.EquationBlock.E
                 ('exactly_the_defined_names', 'all(has(%s, s) == any(result[i] == s for i in range(0, len(result))) for s in strings())' % _blk)])
 
 # Sector.AddVariable(varname, desc, eqn: str): (re)defines varname as the blob expression eqn.
-# ASSUMED contract (its body goes through Equation.__init__, which re-parses '#' / '=' in the name): only the rejection clause is verified (C11);
-# the rest is exercised by every bounded model run.
+# Verified in C11 (through the contract of Equation.__init__ for a list of terms, also verified there) for identifier-shaped names:
+# Equation.__init__ re-reads a name containing '#' or '=' as "name # description" / "name = expression", hence the precondition.
 ADDVARIABLE = fn(
     'sfc_models.sector.Sector.AddVariable',
     args=dict(self=Ref('Sector'), varname=STR, desc=Opt(STR), eqn=STR),
+    # identifier-shaped names: Equation.__init__ re-reads a name that contains '#' or '=' as "name # description" / "name = expression"
+    requires=[('plain_name', "not ('#' in varname) and not ('=' in varname)")],
     modifies=['len.R', 'el.R', 'len.S', 'el.S', 'dh.S.R', 'dv.S.R', 'dk', 'tyof', 'f.Equation.*', 'f.Term.*'],      # lists: the new term list, the key-order list
     ensures=[('defined', 'has(self.EquationBlock.Equations, varname)'),
              ('new_equation_invariant', 'eq_inv(self.EquationBlock.Equations[varname])'),
